@@ -179,6 +179,24 @@ PROPS["C18"] = {
     "level_note": "Ownership is proved; that distinct open file descriptions do not interfere is the environment assumption. Stress runs with "
                   "forked children (bounded layer) are a stand-in only.",
 }
+PROPS["C12"] = {
+    "units": ["contracts.c12_mutable", "contracts.c12_mutable:unit_mmap"],
+    "bounded": True,
+    "level": "other",
+    "trusted_base": ["pyvc VC generator (/verif/pyvc)", "z3", "Python semantics as listed in DESIGN.md §2.3", "builtin list semantics for _lines",
+                     "file model at line granularity and print-to-stream (DESIGN §4)"],
+    "explanation": "Deductive (unbounded in content and edit history, by induction over the history): for MutableRandomLineAccessFile and "
+                   "MutableMemoryMappedRandomLineAccessFile the primitives __setitem__ / __delitem__ / insert / __getitem__ (int) are the list "
+                   "operations on the view V (in-memory text or the file's line), with IndexError ranges and unchanged view on failure, dirty "
+                   "after every change and False after construction; the stdlib mixins append / pop / extend / += are verified from the real "
+                   "_collections_abc source through those contracts; iteration equals indexing; _save_from_iter hands exactly "
+                   "strip_nl(V[i]) + line_ending per line, in order, to a freshly opened and finally closed output stream; no mutator has the "
+                   "file system in its frame (source untouched). Bounded only: remove / reverse / clear / index / slices, the record "
+                   "variants, byte-exactness of the saved file and 'reopening gives the same list'.",
+    "level_text": "Proof of the list refinement for the two plain mutable variants over the line-level file model; bounded histories (<= 3/4 ops x 4 "
+                  "variants, save + reopen, source bytes) for the rest.",
+    "level_note": "Content without line breaks is a precondition. The file / stream model is an assumed environment contract.",
+}
 
 # properties not claimed, with the reason (everything else not in PROPS gets the generic "not built yet" reason)
 NOT_APPLICABLE = {}
